@@ -71,34 +71,52 @@ def from_utf16(u):
     return b''.join(x.to_bytes(2, 'little') for x in u).decode('utf-16-le', 'surrogatepass')
 
 def predict_ts_string(s, d):
-    """what a patcher using JavaScript's line table and UTF-16 offsets produces for the line diff d"""
+    """what a patcher using JavaScript's line table and UTF-16 offsets does with the line diff d:
+    ('ok', string) | ('throw', 'RangeError') | None when the diff is outside the plain forms"""
     try:
         lines = [utf16(l) for l in js_split(s)]
         ltc = [0]
         for l in lines: ltc.append(ltc[-1] + len(l))
+        def valid(n, e):
+            k = e['key']
+            if e['op'] == 'addrange': return 0 <= k <= n
+            if e['op'] == 'removerange': return 0 <= k < n and k + e['length'] <= n
+            if e['op'] == 'patch': return 0 <= k < n
+            return None
         ops = []
         for e in d:
+            v = valid(len(lines), e)
+            if v is None: return None
+            if not v: return ('throw', 'RangeError')
             off = ltc[e['key']]
             if e['op'] == 'patch':
                 for p in e['diff']:
+                    v = valid(len(lines[e['key']]), p)
+                    if v is None or p['op'] == 'patch': return None
+                    if not v: return ('throw', 'RangeError')
                     q = dict(p); q['key'] = p['key'] + off; ops.append(q)
             elif e['op'] == 'addrange':
                 ops.append({'op': 'addrange', 'key': off, 'valuelist': ''.join(e['valuelist'])})
-            elif e['op'] == 'removerange':
+            else:
                 ops.append({'op': 'removerange', 'key': off, 'length': ltc[e['key'] + e['length']] - off})
-            else: return None
         ops.sort(key=lambda o: o['key'])
         base = utf16(s); take = 0; out = []
         for o in ops:
             out += base[take:o['key']] if o['key'] > take else []
             if o['op'] == 'addrange': out += utf16(o['valuelist']); skip = 0
-            elif o['op'] == 'removerange': skip = o['length']
-            else: return None
+            else: skip = o['length']
             take = max(take, o['key'] + skip)
         out += base[take:]
-        return from_utf16(out)
+        return ('ok', from_utf16(out))
     except Exception:
         return None
+
+def u16(v):
+    """the same JSON value with every string re-read as its UTF-16 code units (what the TypeScript model works on)"""
+    if isinstance(v, str): return ''.join(chr(x) for x in utf16(v))
+    if isinstance(v, list): return [u16(x) for x in v]
+    if isinstance(v, dict): return {u16(k): u16(x) for k, x in v.items()}
+    return v
 
 def leaves(base, diff, path=()):
     """string-level (path, base, diff) sub-cases reached through patch ops"""
@@ -119,7 +137,7 @@ def same(py, ts):
 def classify_string(s, d, py, ts):
     """signature of a minimal (string-level) disagreement"""
     pred = predict_ts_string(s, d)
-    explained = 'ok' in ts and pred is not None and pred == ts['ok']
+    explained = pred is not None and (('ok' in ts and pred == ('ok', ts['ok'])) or ('err' in ts and pred == ('throw', ts['err'])))
     if has_exotic(s) and explained:
         return 'ts-string-patch-differs:base-has-line-separator-js-splits-differently'
     if has_astral(s) and not has_exotic(s) and explained:
@@ -309,8 +327,8 @@ def run(tier, seed):
             jobs = [('py_patch', [(c['base'], c['diff'], enc_res(c['py'], py=True)) for c in t1cases if enc_res(c['py'], py=True) is not None]),
                     ('py_split', list(zip(splits, pysplit)))]
             if not static_only:
-                jobs += [('ts_patch', [(c['base'], c['diff'], enc_res(c['ts'], py=False)) for c in t1cases if wf_for_ts_model(c)]),
-                         ('ts_split', [(s, r_['ok']) for s, r_ in zip(splits, tssplit) if 'ok' in r_])]
+                jobs += [('ts_patch', [(u16(c['base']), u16(c['diff']), u16(enc_res(c['ts'], py=False))) for c in t1cases if wf_for_ts_model(c)]),
+                         ('ts_split', [(u16(s), u16(r_['ok'])) for s, r_ in zip(splits, tssplit) if 'ok' in r_])]
             for kind, cs in jobs:
                 bad, err = c15_coq.evaluate(kind, cs)
                 t1 += len(cs)
@@ -434,20 +452,25 @@ def decision_signature(base, d, py, ts):
         return 'ts-rejects-emitted-action:' + str(d.get('action'))
     if 'err' in ts and 'is not defined' in ts.get('msg', '') and 'action' in ts.get('msg', ''):
         return 'ts-cannot-resolve-action:' + str(d.get('action'))
-    # resolve the decision's path in the base and look at the text it touches
-    v = base
-    try:
-        for k in d.get('common_path', []):
-            if isinstance(v, str): break
-            v = v[k]
-    except Exception:
-        v = base
-    if has_exotic(v) or has_exotic([d.get('local_diff'), d.get('remote_diff'), d.get('custom_diff')]):
-        return 'ts-apply-differs:text-has-line-separator-js-splits-differently'
-    if has_astral(v):
-        return 'ts-apply-differs:astral-code-point-before-char-level-edit'
     if 'err' in ts: return 'ts-apply-throws:' + ts['err']
     return 'ts-apply-differs:other'
+
+def resolved_pair(base, d):
+    """(value, diff) that a plain local/remote/custom/... decision applies, or None"""
+    a = d.get('action')
+    L = d.get('local_diff') or []; R = d.get('remote_diff') or []; C = d.get('custom_diff') or []
+    diff = {'local': L, 'either': L, 'remote': R, 'custom': C, 'local_then_remote': L + R, 'remote_then_local': R + L}.get(a)
+    if diff is None: return None
+    v = base; path = list(d.get('common_path', []))
+    try:
+        while path:
+            if isinstance(v, str): break
+            v = v[path[0]]; path = path[1:]
+    except Exception:
+        return None
+    for k in reversed(path):           # the rest of the path points at a line inside the string
+        diff = [{'op': 'patch', 'key': k, 'diff': diff}]
+    return v, diff
 
 def report_merge_failures(chk, mcases, mfail, env):
     if not mfail: return
@@ -460,13 +483,36 @@ def report_merge_failures(chk, mcases, mfail, env):
     t = [{'op': 'apply', 'base': mcases[i]['base'], 'decisions': [d]} for i, j, d in subs]
     pyr = core.run_impl(t, shards=14, script='c15_pyrun.py', env_extra=env) if t else []
     tsr = c15_node.run_node(t) if t else []
-    explained = set()
+    explained = set(); single = []
     for (i, j, d), py, ts in zip(subs, pyr, tsr):
         if same(py, ts) or ('err' in py and 'err' in ts): continue
         explained.add(i)
+        single.append((i, j, d, py, ts))
+    # second reduction: the string-level (base, diff) pairs the failing decision applies
+    lv = []
+    for n, (i, j, d, py, ts) in enumerate(single):
+        rp = resolved_pair(mcases[i]['base'], d)
+        if rp is None: continue
+        for path, s_, d_ in leaves(rp[0], rp[1]):
+            lv.append((n, s_, d_))
+    lv = lv[:3000]
+    lt = [{'op': 'patch', 'base': s_, 'diff': d_} for _, s_, d_ in lv]
+    lpy = core.run_impl(lt, shards=14, script='c15_pyrun.py', env_extra=env) if lt else []
+    lts = c15_node.run_node(lt) if lt else []
+    reduced = set()
+    for (n, s_, d_), py, ts in zip(lv, lpy, lts):
+        if same(py, ts) or ('err' in py and 'err' in ts): continue
+        reduced.add(n)
+        i = single[n][0]
+        chk.violation(classify_string(s_, d_, py, ts), {'kind': 'patch', 'base': s_, 'diff': d_},
+                      {'python': py.get('ok', py.get('err')), 'ts': ts.get('ok', {'threw': ts.get('err'), 'msg': ts.get('msg')}),
+                       'python_lines': s_.splitlines(True), 'js_lines': js_split(s_),
+                       'found_in': mcases[i]['src'] + ' (decision %d, action %s)' % (single[n][1], single[n][2].get('action'))})
+    for n, (i, j, d, py, ts) in enumerate(single):
+        if n in reduced: continue
         sig = decision_signature(mcases[i]['base'], d, py, ts)
         chk.violation(sig, {'kind': 'apply', 'base': mcases[i]['base'], 'decisions': [d]},
-                      {'python': py.get('ok', py.get('err')) if 'err' in py else '<merged notebook>', 'ts': ts.get('err', '<different document>'),
+                      {'python': py.get('err', '<merged notebook>'), 'ts': ts.get('err', '<different document>'),
                        'ts_msg': ts.get('msg'), 'found_in': mcases[i]['src'], 'decision_index': j})
     for i in mfail:
         if i in explained: continue
